@@ -197,6 +197,12 @@ def _ident_coll(x, *a, **k):
     return x
 
 
+def _sorted(x, *a, **k):
+    if isinstance(x, GList):
+        return x.dedup_if_needed().sorted()
+    return sorted(x) if not any(is_sym(v) for v in x) else x
+
+
 class MATH:
     @staticmethod
     def ceil(x):
@@ -213,13 +219,21 @@ class MATH:
 _FRESH = itertools.count(1)
 
 
+def ceil_constraint(c, a, b, bound=None):
+    """c == ceil(a / b) for b > 0.  With a symbolic divisor and a known bound on it the product
+    c*b is avoided: a disjunction over the divisor's values, each disjunct linear."""
+    if is_sym(b) and is_sym(a) and bound:
+        return z3.Or([z3.And(b == k, (c - 1) * k < a, a <= c * k) for k in range(1, bound + 1)])
+    return z3.And((c - 1) * b < a, a <= c * b)
+
+
 def _ceil(interp, x):
     """math.ceil on exact integer quotients / square roots (mathematical semantics; the float
     computation is exact for operands < 2**52, stated assumption)."""
     k = next(_FRESH)        # global: sub-interpreters of called functions must not reuse names
     if isinstance(x, Quot):
         c = z3.Int(f"ceil{k}")
-        cons = z3.And((c - 1) * x.b < x.a, x.a <= c * x.b)
+        cons = ceil_constraint(c, x.a, x.b, getattr(interp, "int_bound", None))
     elif isinstance(x, Sqrt):
         c = z3.Int(f"csqrt{k}")
         bound = getattr(interp, "int_bound", None)
@@ -243,10 +257,26 @@ def _ceil(interp, x):
 _ceil._needs_interp = True
 MATH.ceil = staticmethod(_ceil)
 
-BUILTINS = {"sum": _sum, "sorted": _ident_coll, "oset": lambda *a, **k: _dedup(*a, **k), "set": lambda *a, **k: _dedup(*a, **k), "tuple": _ident_coll, "list": _ident_coll,
+def _round(interp, x):
+    """Python round() of an exact quotient a/b (b > 0): nearest integer, ties to even."""
+    if not isinstance(x, Quot):
+        return x
+    k = next(_FRESH)
+    r = z3.Int(f"round{k}")
+    a, b = x.a, x.b
+    cons = z3.And(2 * a - b <= 2 * r * b, 2 * r * b <= 2 * a + b,
+                  z3.Implies(z3.Or(2 * r * b == 2 * a - b, 2 * r * b == 2 * a + b), r % 2 == 0))
+    interp.solver.add(cons)
+    interp.side.append(cons)
+    return r
+
+
+_round._needs_interp = True
+
+BUILTINS = {"sum": _sum, "sorted": lambda *a, **k: _sorted(*a, **k), "oset": lambda *a, **k: _dedup(*a, **k), "set": lambda *a, **k: _dedup(*a, **k), "tuple": _ident_coll, "list": _ident_coll,
             "any": lambda x: _any(x), "all": lambda x: _all(x), "comb": lambda *a: _comb(*a), "prod": lambda *a: _prod(*a),
             "ceil": _ceil, "abs": _abs, "min": _minmax("min"), "max": _minmax("max"), "len": lambda x: x.shape[0] if isinstance(x, SArr) else len(x),
-            "int": lambda x: x, "float": lambda x: x, "bool": lambda x: x, "True": True, "False": False}
+            "round": _round, "int": lambda x: x, "float": lambda x: x, "bool": lambda x: x, "True": True, "False": False}
 
 
 class GList:
@@ -265,8 +295,34 @@ class GList:
         return z3.Or(alts) if alts else z3.BoolVal(False)
 
 
+    def scaled(self, k):
+        return GList([(g, v * k) for g, v in self.items])
+
+    def sorted(self):
+        """Ascending order of the present elements (which must be pairwise distinct: call dedup()
+        first).  Position p holds the present element with exactly p smaller present elements."""
+        m = len(self.items)
+        if m <= 1 or not any(is_sym(g) or is_sym(v) for g, v in self.items):
+            if not any(is_sym(g) or is_sym(v) for g, v in self.items):
+                return GList(sorted([(g, v) for g, v in self.items if g is True or (not is_sym(g) and g)], key=lambda t: t[1]))
+            return GList(self.items)
+        ranks = []
+        for k, (g, v) in enumerate(self.items):
+            ranks.append(z3.Sum([z3.If(z3.And(zbool(g2), zbool(v2 < v)), 1, 0) for j, (g2, v2) in enumerate(self.items) if j != k]))
+        npresent = z3.Sum([z3.If(zbool(g), 1, 0) for g, _ in self.items])
+        out = []
+        for p in range(m):
+            val = z3.IntVal(0)
+            for k, (g, v) in enumerate(self.items):
+                val = z3.If(z3.And(zbool(g), ranks[k] == p), v if is_sym(v) else z3.IntVal(v), val)
+            out.append((z3.simplify(npresent > p), val))
+        return GList(out)
+
     def count(self, x):
         return z3.Sum([z3.If(z3.And(zbool(g), (v == x) if (is_sym(v) or is_sym(x)) else z3.BoolVal(v == x)), 1, 0) for g, v in self.items]) if self.items else 0
+
+    def dedup_if_needed(self):
+        return self if getattr(self, "_distinct", False) else self.dedup()
 
     def dedup(self):
         """set()/oset() semantics: element k survives iff no earlier present element equals it."""
@@ -274,7 +330,9 @@ class GList:
         for k, (g, v) in enumerate(self.items):
             earlier = [z3.And(zbool(g2), (v2 == v) if (is_sym(v) or is_sym(v2)) else z3.BoolVal(v2 == v)) for g2, v2 in self.items[:k]]
             out.append((z3.simplify(z3.And(zbool(g), z3.Not(z3.Or(earlier)))) if earlier else g, v))
-        return GList(out)
+        r = GList(out)
+        r._distinct = True
+        return r
 
 
 def _dedup(x=None, *a, **k):
@@ -371,6 +429,28 @@ class Sqrt:
         self.a = a
 
 
+class ChainEnv(dict):
+    """Local scope of a nested function: reads fall through to the (live) defining scope."""
+
+    def __init__(self, parent):
+        super().__init__()
+        self.parent = parent
+
+    def __contains__(self, k):
+        return dict.__contains__(self, k) or k in self.parent
+
+    def __getitem__(self, k):
+        return dict.__getitem__(self, k) if dict.__contains__(self, k) else self.parent[k]
+
+    def get(self, k, d=None):
+        return self[k] if k in self else d
+
+
+class Closure:
+    def __init__(self, node, env):
+        self.node, self.env = node, env
+
+
 class Interp:
     def __init__(self, fn_src, globs, solver=None):
         self.tree = ast.parse(textwrap.dedent(fn_src)).body[0]
@@ -439,10 +519,12 @@ class Interp:
             if op == "Sub": return z3.fpSub(RNE, a2, b2)
             if op == "Mult": return z3.fpMul(RNE, a2, b2)
             raise Unsupported("fp " + op)
+        if isinstance(a, GList) and op == "Mult": return a.scaled(b)
+        if isinstance(b, GList) and op == "Mult": return b.scaled(a)
         if op == "Add": return a + b
         if op == "Sub": return a - b
         if op == "Mult": return a * b
-        if op == "Pow" and b == 0.5:
+        if op == "Pow" and not isinstance(b, (GList, Quot, Sqrt)) and not is_sym(b) and b == 0.5:
             return Sqrt(a)
         if op == "Div":
             if not is_sym(a) and not is_sym(b):
@@ -482,6 +564,14 @@ class Interp:
         assert len(n.ops) == 1
         a, b = self.ev(n.left, env), self.ev(n.comparators[0], env)
         op = type(n.ops[0]).__name__
+        if op in ("In", "NotIn"):
+            if isinstance(b, GList):
+                r = b.member(a)
+                return z3.Not(r) if op == "NotIn" else r
+            if is_sym(a):
+                r = z3.Or([a == v for v in b]) if len(b) else z3.BoolVal(False)
+                return z3.Not(r) if op == "NotIn" else r
+            return (a in b) if op == "In" else (a not in b)
         if is_fp(a) or is_fp(b):
             a2, b2 = fp_promote(a, b)
             return {"Lt": lambda: z3.fpLT(a2, b2), "LtE": lambda: z3.fpLEQ(a2, b2), "Gt": lambda: z3.fpGT(a2, b2),
@@ -569,6 +659,8 @@ class Interp:
         f = self.ev(n.func, env)
         args = [self.ev(a, env) for a in n.args]
         kw = {k.arg: self.ev(k.value, env) for k in n.keywords}
+        if isinstance(f, Closure):
+            return self.call_closure(f, args, kw)
         return f(self, *args, **kw) if getattr(f, "_needs_interp", False) else f(*args, **kw)
 
     def ev_IfExp(self, n, env):
@@ -598,9 +690,31 @@ class Interp:
         self.side += sub.side
         return sub.retval
 
+    def bind(self, fnode, args, kw, env):
+        names = [a.arg for a in fnode.args.args]
+        for nm, v in zip(names, args):
+            env[nm] = v
+        for nm, v in (kw or {}).items():
+            env[nm] = v
+        defaults = fnode.args.defaults
+        for nm, d in zip(names[len(names) - len(defaults):], defaults):
+            if not dict.__contains__(env, nm):
+                env[nm] = self.ev(d, env)
+        return env
+
+    def call_closure(self, c, args, kw=None):
+        """A nested function called under the current statement guard; its body runs on a local
+        scope chained to the live defining scope (Python closure semantics, no `nonlocal`)."""
+        g = getattr(self, "cur_guard", True)
+        local = self.bind(c.node, args, kw, ChainEnv(c.env))
+        fr = {"ret": False}
+        self.block(c.node.body, local, g, fr, None)
+        self.cur_guard = g
+        return fr.get("val")
+
     # ---------- statements ----------
     def run(self, args):
-        env = dict(args)
+        env = self.bind(self.tree, [], dict(args), {})
         fr = {"ret": False}
         self.block(self.tree.body, env, True, fr, None)
         self.retval = fr.get("val")
@@ -636,11 +750,18 @@ class Interp:
             arr = self.ev(target.value, env)
             idx = self.ev(target.slice, env)
             arr.set(idx, val, guard)
+        elif isinstance(target, ast.Tuple):
+            for tg, v in zip(target.elts, val):
+                self.assign(tg, v, env, guard)
         else:
             raise Unsupported("assign target")
 
     def stmt(self, s, env, guard, fr, loop):
         t = type(s).__name__
+        self.cur_guard = guard
+        if t == "FunctionDef":
+            env[s.name] = Closure(s, env)
+            return
         if t == "Expr":
             v = s.value
             if isinstance(v, ast.Call) and isinstance(v.func, ast.Attribute) and v.func.attr in ("append", "add"):
@@ -649,6 +770,9 @@ class Interp:
                     obj.append(guard, self.ev(v.args[0], env))
                     return
             if isinstance(v, ast.Constant):
+                return
+            if isinstance(v, ast.Call):
+                self.ev(v, env)          # evaluated for its (guarded) effects: nested-function calls
                 return
             raise Unsupported("expression statement")
         if t == "Assign":
